@@ -298,3 +298,59 @@ Proof.
       assert (Hc : B96 / 10 = 7922816251426433759354395033) by reflexivity. rewrite Hc in Hd2.
       unfold B96. lia.
 Qed.
+
+(* ---- when is a product exact ---- *)
+(* whenever rescale keeps the value, the product is exact in the sense of mul_is_exact *)
+Lemma exact_of_rescale a n m' s' :
+  m' * 10 ^ (d_scale a - s') = d_mant a * n -> s' <= d_scale a ->
+  mul_is_exact a (dec_of_N n) (mkdec (xorb (d_neg a) false) m' s') = true.
+Proof.
+  intros H Hle. unfold mul_is_exact, dec_of_N, pow10. cbn [d_mant d_scale]. rewrite N.add_0_r. apply N.eqb_eq.
+  rewrite <- H. replace (d_scale a) with ((d_scale a - s') + s') at 1 by lia. rewrite N.pow_add_r. ring.
+Qed.
+
+(* a product whose integer mantissa product fits 96 bits is never rounded *)
+Lemma dec_mul_small_exact a n r :
+  d_scale a <= 28 -> d_mant a * n < B96 -> dec_mul a (dec_of_N n) = Some r -> mul_is_exact a (dec_of_N n) r = true.
+Proof.
+  intros Hs Hv. unfold dec_mul, dec_of_N. cbn [d_mant d_scale d_neg]. rewrite N.add_0_r.
+  destruct (N.eqb_spec (d_mant a) 0) as [Hz|Hnz]; cbn [orb].
+  { intros Hx. injection Hx as <-. unfold mul_is_exact, pow10. cbn. rewrite Hz. reflexivity. }
+  destruct (N.eqb_spec n 0) as [Hz|Hnz2].
+  { intros Hx. injection Hx as <-. unfold mul_is_exact, pow10. cbn. rewrite Hz. rewrite N.mul_0_r. reflexivity. }
+  destruct ((d_mant a <? two32) && (n <? two32)).
+  - destruct (N.ltb_spec 28 (d_scale a)) as [Hgt|Hle]; [lia|]. intros Hx. injection Hx as <-.
+    unfold mul_is_exact, pow10. cbn [d_mant d_scale]. rewrite N.add_0_r. apply N.eqb_refl.
+  - unfold rescale. replace (d_scale a - 28) with 0 by lia.
+    change (least_d 64 (d_mant a * n) 0) with (if d_mant a * n / pow10 0 <? B96 then 0 else least_d 63 (d_mant a * n) (0 + 1)).
+    change (pow10 0) with 1. rewrite N.div_1_r. destruct (N.ltb_spec (d_mant a * n) B96) as [_|Hge]; [|lia].
+    cbv zeta. destruct (N.ltb_spec (d_scale a) 0) as [Hlt|_]; [lia|]. cbn [N.eqb].
+    intros Hx. injection Hx as <-. unfold mul_is_exact, pow10. cbn [d_mant d_scale]. rewrite N.add_0_r. apply N.eqb_refl.
+Qed.
+
+(* an integral product of at least 2^96 overflows: the multiplication fails instead of rounding *)
+Lemma least_d_result fuel : forall v d0, let d := least_d fuel v d0 in v / pow10 d < B96 \/ d = d0 + N.of_nat fuel.
+Proof.
+  induction fuel as [|f IH]; intros v d0; cbn [least_d]; [right; lia|].
+  destruct (N.ltb_spec (v / pow10 d0) B96) as [Hok|Hbig]; [left; exact Hok|].
+  destruct (IH v (d0 + 1)) as [H|H]; [left; exact H|right]. rewrite H. lia.
+Qed.
+Lemma dec_mul_int_overflow a n q :
+  d_scale a <= 28 -> d_mant a * n = q * 10 ^ d_scale a -> B96 <= q -> dec_mul a (dec_of_N n) = None.
+Proof.
+  intros Hs Hprod Hq. unfold dec_mul, dec_of_N. cbn [d_mant d_scale d_neg]. rewrite N.add_0_r.
+  pose proof (pow10_pos (d_scale a)) as Pp.
+  assert (Hvbig : B96 <= d_mant a * n) by (rewrite Hprod; nia).
+  destruct (N.eqb_spec (d_mant a) 0) as [Hz|Hnz]; [rewrite Hz in Hvbig; unfold B96 in Hvbig; lia|]. cbn [orb].
+  destruct (N.eqb_spec n 0) as [Hz|Hnz2]; [rewrite Hz, N.mul_0_r in Hvbig; unfold B96 in Hvbig; lia|].
+  destruct ((d_mant a <? two32) && (n <? two32)) eqn:Esm.
+  { apply andb_prop in Esm as [E1 E2]. apply N.ltb_lt in E1, E2. unfold two32, B96 in *. nia. }
+  unfold rescale. replace (d_scale a - 28) with 0 by lia. set (d := least_d 64 (d_mant a * n) 0). cbv zeta.
+  destruct (N.ltb_spec (d_scale a) d) as [_|Hle]; [reflexivity|]. exfalso.
+  destruct (least_d_result 64 (d_mant a * n) 0) as [Hfit|Hd].
+  - fold d in Hfit. assert (Hge : q <= d_mant a * n / pow10 d).
+    { rewrite Hprod. unfold pow10. replace (d_scale a) with ((d_scale a - d) + d) by lia. rewrite N.pow_add_r, N.mul_assoc.
+      rewrite N.div_mul by apply pow10_nz. pose proof (pow10_pos (d_scale a - d)). nia. }
+    lia.
+  - fold d in Hd. change (N.of_nat 64) with 64 in Hd. lia.
+Qed.
